@@ -290,27 +290,32 @@ def b4(ctx, rid):
         ctx.ok(rid, key, inits[0].where(), 'the node filter is overwritten only on the `children.is_empty()` edge')
     else:
         ctx.bad(rid, key, inits[0].where(), 'the node filter can be overwritten (re-initialised from one child) for a node that already has children: a filter that was dropped to None as `unknown` is replaced by one covering only the new blob')
-    # (d) new root inherits the old root's filter
-    p = prog.body_of('filter::hierarchical::HierarchicalFilters::<Key, Filter, Child>::push')
-    if p is None:
-        raise core.AnchorLost('HierarchicalFilters::push')
+    # (d) new root inherits the old root's filter: wherever a node is built in a body that also re-points `self.root`
     key = 'new-root-inherits-filter'
-    found = False
-    for b in p.blocks:
-        if b['c']:
+    found = None
+    where = ''
+    for p in prog.fns.values():
+        if p.file != 'src/filter/hierarchical.rs':
             continue
-        for s in b['s']:
-            if s['k'] == 'a' and s['r']['k'] == 'agg' and s['r'].get('adt') == 'filter::hierarchical::InnerNode':
-                o = s['r']['ops'][s['r']['fields'].index('filter')]
-                ogs = core.origins(p, o, stop_fields=True)
-                if any(og.kind == 'field' and og.data[1] == 'filter' for og in ogs) or any(og.kind == 'call' and og.data.name == 'clone' for og in ogs):
-                    found = True
-                else:
-                    found = False
+        sets_root = any(st['k'] == 'a' and core.place_fields(st['d'])[-1:] == ['root'] for b in p.blocks if not b['c'] for st in b['s'])
+        if not sets_root:
+            continue
+        for b in p.blocks:
+            if b['c']:
+                continue
+            for s in b['s']:
+                if s['k'] == 'a' and s['r']['k'] == 'agg' and s['r'].get('adt') == 'filter::hierarchical::InnerNode':
+                    o = s['r']['ops'][s['r']['fields'].index('filter')]
+                    ogs = core.origins(p, o, stop_fields=True)
+                    ok = any(og.kind == 'field' and og.data[1] == 'filter' for og in ogs) or any(og.kind == 'call' and og.data.name == 'clone' for og in ogs)
+                    found = ok if found is None else (found and ok)
+                    where = p.where()
+    if found is None:
+        raise core.AnchorLost('construction of a new root node (InnerNode built where self.root is re-pointed)')
     if found:
-        ctx.ok(rid, key, p.where(), 'the new root node is built with a clone of the old root\'s filter')
+        ctx.ok(rid, key, where, 'the new root node is built with a clone of the old root\'s filter')
     else:
-        ctx.bad(rid, key, p.where(), 'a new root node does not inherit the old root\'s filter')
+        ctx.bad(rid, key, where, 'a new root node does not inherit the old root\'s filter')
 
 
 def b5(ctx, rid):
@@ -544,14 +549,29 @@ def _len_keys(f, operand):
     return set(o.key() for o in core.origins(f, operand, stop_fields=True))
 
 
-def _bitvec_len_operand(f, operand):
-    """for a value that is (an Option of) a freshly built AtomicBitVec: the operand giving its length in bits, else None"""
+def _bitvec_len_operand(f, operand, prog=None, depth=2):
+    """for a value that is (an Option of) a freshly built AtomicBitVec: (call, operand giving its length in bits), else (None,
+    None); a helper of this crate that builds the vector from one of its parameters is looked through"""
     for o in core.origins(f, operand):
-        if o.kind == 'call' and 'AtomicBitVec' in o.data.path:
-            if o.data.name == 'new' and o.data.args:
-                return o.data, o.data.args[0]
-            if o.data.name == 'from_raw_slice' and len(o.data.args) > 1:
-                return o.data, o.data.args[1]
+        if o.kind != 'call':
+            continue
+        c = o.data
+        if 'AtomicBitVec' in c.path:
+            if c.name == 'new' and c.args:
+                return c, c.args[0]
+            if c.name == 'from_raw_slice' and len(c.args) > 1:
+                return c, c.args[1]
+        if prog is not None and depth > 0:
+            for t in prog.resolve(c):
+                g = prog.fns.get(t)
+                if g is None or g.is_coroutine:
+                    continue
+                c2, ln = _bitvec_len_operand(g, 0, prog, depth - 1)
+                if c2 is None:
+                    continue
+                ogs = core.origins(g, ln)
+                if len(ogs) == 1 and ogs[0].kind == 'arg' and isinstance(ogs[0].data, int) and 1 <= ogs[0].data <= len(c.args):
+                    return c, c.args[ogs[0].data - 1]
     return None, None
 
 
@@ -573,7 +593,7 @@ def b11(ctx, rid):
             bc = agg['ops'][agg['fields'].index('bits_count')]
             n += 1
             key = 'len-eq-bits_count|construct|%s' % root
-            c, ln = _bitvec_len_operand(f, o)
+            c, ln = _bitvec_len_operand(f, o, prog)
             if c is None:
                 # copy of an existing filter (Clone): both fields must come from the same source object
                 io = core.origins(f, o, stop_fields=True)
@@ -593,7 +613,7 @@ def b11(ctx, rid):
                 continue
             n += 1
             key = 'len-eq-bits_count|store|%s' % root
-            c, ln = _bitvec_len_operand(f, o) if o is not None else (None, None)
+            c, ln = _bitvec_len_operand(f, o, prog) if o is not None else (None, None)
             lo = core.origins(f, ln, stop_fields=True) if ln is not None else []
             if lo and all(x.kind == 'field' and x.data == (BLOOM, 'bits_count') for x in lo):
                 ctx.ok(rid, key, f.where(bb), 'new bit vector sized from self.bits_count')
